@@ -108,6 +108,7 @@ type Spec struct {
 	// If set, collection lengths / chunk counts are drawn from these
 	// (boundary values) instead of 0..Max.
 	LenChoices   []int `json:"len_choices,omitempty"`
+	Len1Choices  []int `json:"len1_choices,omitempty"` // lengths of collections nested directly in a collection
 	ChunkChoices []int `json:"chunk_choices,omitempty"`
 	// Write extra unreferenced files, tmp files.
 	ExtraFiles bool `json:"extra_files"`
